@@ -47,6 +47,16 @@ func (c *FCtx) evalCall(st *State, call *ast.CallExpr) []Val {
 	}
 	key := funcKey(fn)
 	sig := fn.Type().(*types.Signature)
+	if recvExpr != nil {
+		if rt := c.info.TypeOf(recvExpr); rt != nil && typeName(rt) == "sha3.ShakeHash" {
+			key = "sha3.ShakeHash." + fn.Name()
+		}
+	}
+	if strings.HasPrefix(key, "sha3.") {
+		if vs, ok := c.xofCall(st, key, call, recvExpr); ok {
+			return vs
+		}
+	}
 	// receiver
 	var args []Val
 	var argExprs []ast.Expr
@@ -684,7 +694,7 @@ func (c *FCtx) evalBuiltin(st *State, name string, call *ast.CallExpr) []Val {
 			if len(call.Args) > 2 {
 				capT = c.evalIndex(st, call.Args[2])
 			}
-			goal := And(Le(Num(0), n), Le(n, capT), Le(capT, NumB(maxLen)))
+			goal := And(Le(Num(0), n), Le(n, capT), Le(capT, NumB(maxMake)))
 			c.oblige(st, "safety", "make-size "+c.exprStr(call), goal, c.eng.pos(call))
 			st.assume(goal)
 			cell := c.newCell(st, MV{c.zeroMem(u.Elem()), u.Elem()})
@@ -746,7 +756,37 @@ func (c *FCtx) evalBuiltin(st *State, name string, call *ast.CallExpr) []Val {
 	return nil
 }
 
+// Maps are modelled as two SMT arrays over the key sort: presence and value (Go map lookup semantics: a
+// missing key yields the zero value and found == false).  Only map[K]int with scalar K occurs here.
 func (c *FCtx) evalMapIndex(st *State, ix *ast.IndexExpr) []Val {
-	fail("map access is outside the supported subset")
-	return nil
+	m, ok := c.eval(st, ix.X).(FV)
+	if !ok {
+		fail("map access on a value that is not a modelled map")
+	}
+	k := c.eval(st, ix.Index)
+	kv, ok := k.(SV)
+	if !ok {
+		fail("map key of kind %T (string keys must be abstract Str values)", k)
+	}
+	mt := m.Typ.Underlying().(*types.Map)
+	has := App("select", SBool, m.Present, kv.T)
+	val := Ite(has, App("select", c.sortOf(mt.Elem()), m.Value, kv.T), c.zeroTerm(mt.Elem()))
+	return []Val{SV{val, mt.Elem()}, SV{has, types.Typ[types.Bool]}}
+}
+
+func (c *FCtx) mapAssign(st *State, ix *ast.IndexExpr, v Val) {
+	p, ok := c.resolvePlace(st, ix.X)
+	if !ok {
+		fail("map assignment through a non-place")
+	}
+	m, ok := c.readPlace(st, p).(FV)
+	if !ok {
+		fail("map assignment on a value that is not a modelled map")
+	}
+	kv, ok := c.eval(st, ix.Index).(SV)
+	if !ok {
+		fail("map key kind")
+	}
+	nm := FV{Present: App("store", m.Present.S, m.Present, kv.T, True()), Value: App("store", m.Value.S, m.Value, kv.T, c.valToTerm(v)), Typ: m.Typ}
+	c.writePlace(st, p, nm)
 }
